@@ -541,7 +541,10 @@ class Run:
                 # the name as *registered* for r1 (this runs in the same phase, so the same remapping applies to r1's given name)
                 # every other time the rejected value is the very object that already holds the second pair
                 same = self.values.get(str(st[1])) if int(st[1]) % 2 == 0 else None
-                add_resource(same if same is not None else Value(f"rejected-{st[1]}"), r1["given_name"], [RTYPES[r2["type"]], RTYPES[r1["type"]]])
+                # ... and every other rejected publication carries a teardown callback, which must never run
+                rejected_td = (lambda n=st[1]: run.log("teardown-run", f"rejected{n}")) if int(st[2]) % 2 == 0 else None
+                add_resource(same if same is not None else Value(f"rejected-{st[1]}"), r1["given_name"], [RTYPES[r2["type"]], RTYPES[r1["type"]]],
+                             teardown_callback=rejected_td)
                 outcome = "accepted"
             except Exception as e:
                 outcome = type(e).__name__
